@@ -201,8 +201,8 @@ struct Guard {
             } \
             case 3: { \
                 future<int> f; \
-                c->prom = f.get_promise(); \
                 c->pend_k = a; \
+                c->prom = f.get_promise(); \
                 int r = co_await f; \
                 c->event(4, r); \
                 break; \
